@@ -32,7 +32,8 @@ RULE = ("random pipelines over {illumination uniform/rectangular/elliptic, load_
         "dark_current without noise, simple_conversion / conversion_with_qe_map in expectation mode, simple_collection} "
         "+ simple_measurement + simple_adc, random levels / time scales / files / geometries 1x1..8x8, detectors "
         "ccd/cmos/mkid/apd; per case one non-destructive family (single readout + 3-4 partitions into 1..12 readouts) "
-        "and one destructive family (base schedule + 2 re-scheduled runs); non-trivial = collected charge non-zero and "
+        "and one destructive family (base schedule + 2 re-scheduled runs); cut points even / uniform / log-uniform / as close to "
+        "each other and to the ends as 1e-7 of the label size; non-trivial = collected charge non-zero and "
         "at least one schedule with >=2 readouts; distinct = distinct (pipeline, geometry, interval) signatures")
 ASSUMPTIONS = [
     "dark_current is made deterministic by its own arguments (temporal_noise=False, spatial_noise_factor=None); no seed is needed",
@@ -43,6 +44,9 @@ ASSUMPTIONS = [
     "tolerance of a destructive frame is widened by 16*eps*max(|t|,|start|)/dt so that any reasonable way of computing "
     "the steps (differences of neighbours or of offsets from the start) is accepted for extremely short frames",
     "only the 'pixel' bucket is compared; signal/image (quantisation) are downstream and not part of the statement",
+    "neighbouring readout times (and the start) are kept >= 1e-7 x (size of the labels start_time + time) apart, because "
+    "closer times can make the assembly of the result fail (xarray MergeError on colliding time labels, recorded under "
+    "C03); such a failure is counted as refused_label_collision, never alarmed",
 ]
 REQUIRED_COUNTERS = ["runs", "nd_families", "nd_partitions_compared", "nd_nonzero_families", "nd_multi_readout_partitions",
                      "nd_close_cut_partitions", "destr_families", "destr_frames_compared", "destr_rescheduled_runs",
@@ -56,16 +60,13 @@ LEVEL_NOTE = ("Trusted: numpy/astropy file writers for the generated input files
               "Python's Fraction arithmetic for the frame durations.")
 
 # Mechanisms of genuine defects found on the unchanged tree: counted, not raised, unless
-# VERIF_C17_STRICT=1.  (Every listed model integrates its flux consistently; the one entry concerns
-# the assembly of the result, which C17 meets because it quantifies over all partitions and starts.)
-OPEN_FINDINGS: dict[str, str] = {
-    "C17:readout-labels-collide:result-not-assembled":
-        "start_time != 0 and two strictly increasing readout times t_i < t_j with fl(start+t_i) == fl(start+t_j): every "
-        "step is labelled start_time + time (although the times already live on the axis of start_time) and the steps "
-        "are joined with xr.merge, so the run dies with MergeError or silently loses a time slice; witness "
-        "Readout(times=[1.5, nextafter(1.5, 2), 2.0], start_time=1.0); patch: join by position (xr.concat along 'time') "
-        "or label with the readout time itself",
-}
+# VERIF_C17_STRICT=1.  Empty: every listed model integrates its flux consistently.
+# (Readout times whose labels start_time + time round to the same double make the assembly of the
+# result fail with xarray's MergeError -- the root cause is recorded under C03, it is not a statement
+# about collected charge.  The generators keep neighbouring times >= MIN_GAP (relative to the size of
+# the labels) apart, and such a failure is counted as "refused_label_collision".)
+OPEN_FINDINGS: dict[str, str] = {}
+MIN_GAP = 1e-7
 
 SOURCES = ["illum_uniform", "illum_rectangular", "illum_elliptic", "load_image", "stripe_pattern",
            "load_charge", "dark_current"]
@@ -246,9 +247,24 @@ def gen_interval(rng, index):
     return start, end, kind
 
 
+def label_scale(start, end):
+    """Upper bound of |start_time + time| over the exposure (and never below its duration)."""
+    return max(abs(start) + max(abs(start), abs(end)), end - start)
+
+
+def min_gap(start, end):
+    return MIN_GAP * label_scale(start, end)
+
+
 def finish_times(start, end, cuts):
-    cuts = sorted({float(c) for c in cuts if start < c < end})
-    times = cuts + [end]
+    gap = min_gap(start, end)
+    kept = []
+    prev = start
+    for c in sorted({float(c) for c in cuts}):
+        if c - prev >= gap and end - c >= gap:
+            kept.append(c)
+            prev = c
+    times = kept + [end]
     if times[0] == 0.0:      # a first readout at exactly 0 is refused by Readout (documented): drop that cut
         times = times[1:]
     return times
@@ -264,18 +280,20 @@ def gen_partition(rng, start, end, n, style):
     elif style == "uniform":
         cuts = [start + dur * rng.random() for _ in range(m)]
     elif style == "uneven":          # log-uniform fractions: most of the exposure in one or two frames
-        cuts = [start + dur * 10.0 ** rng.uniform(-9, 0) for _ in range(m)]
+        cuts = [start + dur * 10.0 ** rng.uniform(-6, 0) for _ in range(m)]
         if rng.random() < 0.5:
             cuts = [end - (c - start) for c in cuts]
-    elif style == "close_pairs":     # cut points extremely close to each other
+    elif style == "close_pairs":     # cut points as close to each other as the label resolution allows
+        gap = min_gap(start, end)
         while len(cuts) < m:
             c = start + dur * rng.uniform(0.05, 0.95)
             cuts.append(c)
             if len(cuts) < m:
-                cuts.append(rng.choice([float(np.nextafter(c, np.inf)), c + dur * 1e-12, c + dur * 1e-9]))
-    elif style == "close_ends":      # cut points extremely close to the start and to the end
-        pool = [float(np.nextafter(start, np.inf)), start + dur * 1e-13, start + dur * 1e-10,
-                float(np.nextafter(end, -np.inf)), end - dur * 1e-13, end - dur * 1e-10]
+                cuts.append(c + gap * rng.choice([1.0000001, 1.5, 10.0, 100.0]))
+    elif style == "close_ends":      # cut points as close to the start and to the end as allowed
+        gap = min_gap(start, end)
+        pool = [start + gap * 1.0000001, start + gap * 3.0, start + gap * 100.0,
+                end - gap * 1.0000001, end - gap * 3.0, end - gap * 100.0]
         rng.shuffle(pool)
         cuts = pool[:m] + [start + dur * rng.random() for _ in range(max(0, m - len(pool)))]
     return finish_times(start, end, cuts)
@@ -294,14 +312,20 @@ def reschedule(rng, start, times, variant, k):
         return start, [start + (t - start) * k for t in times]
     if variant == "shift":              # same intervals, another start
         dur = times[-1] - start
-        delta = rng.choice([-1.0, 1.0]) * rng.choice([0.5, 1.0, 2.0, 16.0]) * max(dur, abs(start))
+        delta = rng.choice([-1.0, 1.0]) * rng.choice([0.5, 1.0, 2.0, 4.0]) * max(dur, abs(start))
         return start + delta, [t + delta for t in times]
     raise ValueError(variant)
 
 
 def valid_schedule(start, times):
-    return (times[0] != 0.0 and times[0] > start and all(b > a for a, b in zip(times, times[1:]))
-            and all(np.isfinite(times)))
+    """Accepted by Readout (strictly increasing, first time non-zero and after the start) and with labels
+    that stay distinct with a margin (neighbours > 4e-9 of the label size apart, see MIN_GAP)."""
+    if not (times[0] != 0.0 and times[0] > start and all(b > a for a, b in zip(times, times[1:]))
+            and all(np.isfinite(times))):
+        return False
+    pts = [start] + list(times)
+    gap = 0.04 * min_gap(start, times[-1])
+    return all(b - a > gap for a, b in zip(pts, pts[1:])) and not labels_collide(start, times)
 
 
 def labels_collide(start, times):
@@ -365,10 +389,9 @@ def run_or_refuse(rec, case, public, index, relation, start, times, non_destruct
         rec.count("runs")
         return out
     except Exception as exc:  # noqa: BLE001
-        if labels_collide(start, times):
-            alarm(rec, "C17:readout-labels-collide:result-not-assembled",
-                  f"{type(exc).__name__}: {str(exc)[:200]} :: start={start!r} times={times!r}",
-                  dict(public, start=start, times=times, non_destructive=non_destructive), index)
+        if type(exc).__name__ == "MergeError" or labels_collide(start, times):
+            # assembly of the result refused the time labels (recorded under C03): nothing to decide here
+            rec.count("refused_label_collision")
             return None
         if case["expected_refusal"]:
             rec.count("refused")
